@@ -515,6 +515,13 @@ func (g *Gen) intRep(n int64, u *Units) *Val {
 			if u != nil && n >= 0 {
 				return Str(g.FormatUnits(u, n))
 			}
+			if n >= 0 && g.p(0.35) {
+				// the way documents spell numbers: zero-padded, signed
+				if g.p(0.5) {
+					return Str(fmt.Sprintf("%03d", n))
+				}
+				return Str("+" + strconv.FormatInt(n, 10))
+			}
 			return Str(strconv.FormatInt(n, 10))
 		case 10:
 			if n >= 0 && n <= 65535 {
@@ -756,9 +763,14 @@ func (g *Gen) Value(t *Ty, env Env, depth int) *Val {
 				continue
 			}
 			if k.Kind == "s" {
-				if _, err := strconv.ParseInt(strings.TrimSpace(k.S), 10, 64); err == nil || t.K.Units != nil {
+				if n, err := strconv.ParseInt(strings.TrimSpace(k.S), 10, 64); err == nil || t.K.Units != nil {
 					if t.K.T == "int" || t.K.T == "enumInt" {
-						continue
+						if err != nil || t.K.Units != nil {
+							continue
+						}
+						// an integer key as a document spells it ("02", "+1", " 7"): one key per number
+						id = "i:" + strconv.FormatInt(n, 10)
+						g.count("map:int-key-as-text")
 					}
 				}
 			}
@@ -916,6 +928,22 @@ func (g *Gen) AnyValue(depth int) *Val {
 		default:
 			return Uint("uint64", uint64(g.R.Intn(100)))
 		}
+	}
+	if g.p(0.08) {
+		// a statically typed slice whose element type is a DEFINED scalar type ([]MyStr, []MyInt64, ...: what
+		// []time.Duration is to a caller): each element denotes its native value, as a lone named scalar does
+		mk := []func() *Val{
+			func() *Val { return Named(Str(stringPool[g.R.Intn(len(stringPool))])) },
+			func() *Val { return Named(Int("int64", g.smallInt())) },
+			func() *Val { return Named(F64(float64(g.smallInt()) / 2)) },
+			func() *Val { return Named(Bool(g.p(0.5))) },
+		}[g.R.Intn(4)]
+		l := &Val{Kind: "l", LT: "named"}
+		for i, n := 0, 1+g.R.Intn(3); i < n; i++ {
+			l.L = append(l.L, mk())
+		}
+		g.count("any:named-slice")
+		return l
 	}
 	if g.p(0.5) {
 		n := g.R.Intn(4)
